@@ -80,7 +80,14 @@ def gen_random(rng, maxn):
     for _ in range(rng.randint(1, 4)):
         ents.append(rng.sample(range(n), rng.randint(1, min(4, n))))
     procs = rng.sample(range(n), rng.randint(1, n))
-    return {'dag': dag, 'entities': ents, 'procs': procs}
+    # classes of different namespaces may share one name
+    return {'dag': dag, 'entities': ents, 'procs': procs,
+            'same_names': rng.random() < 0.3,
+            # components may be falsy objects (__bool__/__len__)
+            'falsy': rng.choice([None, None, 'bool', 'len']),
+            # a class defined AFTER the first queries: [bases], populated
+            'late': [rng.sample(range(n), rng.randint(1, min(2, n)))
+                     for _ in range(rng.randint(0, 2))]}
 
 
 def gen_cases(tier, seed):
@@ -93,18 +100,19 @@ def gen_cases(tier, seed):
         yield gen_random(random.Random(f'C06/{seed}/{tier}/{i}'), maxn)
 
 
-def build_classes(dag, root, res, ns=None):
+def build_classes(dag, root, res, ns=None, same_names=False):
     classes = []
     effective = []
     for i, bases in enumerate(dag):
         cand = tuple(classes[b] for b in bases) or (root,)
+        name = 'D' if same_names else f'D{i}'
         try:
-            cls = type(f'D{i}', cand, dict(ns or {}))
+            cls = type(name, cand, dict(ns or {}))
             eff = list(bases)
         except TypeError:
             res.stats['mro_rejected'] += 1
             cand = (classes[bases[0]],)
-            cls = type(f'D{i}', cand, dict(ns or {}))
+            cls = type(name, cand, dict(ns or {}))
             eff = [bases[0]]
         classes.append(cls)
         effective.append(eff)
@@ -130,10 +138,18 @@ def run_case(case):
     class CRoot:
         pass
 
-    comp_classes, effective = build_classes(dag, CRoot, res)
+    same = case.get('same_names', False)
+    falsy_ns = {'bool': {'__bool__': lambda self: False},
+                'len': {'__len__': lambda self: 0}}.get(case.get('falsy'), {})
+    if falsy_ns:
+        res.tags['falsy_components'].add(case['falsy'])
+    comp_classes, effective = build_classes(dag, CRoot, res, ns=falsy_ns,
+                                            same_names=same)
     proc_classes, _ = build_classes(
         dag, desper.Processor, res,
-        ns={'process': lambda self, dt=1: None})
+        ns={'process': lambda self, dt=1: None}, same_names=same)
+    if same:
+        res.tags['same_names'].add(True)
     paths = path_counts(effective)
     n = len(dag)
     shape = tuple(tuple(b) for b in effective)
@@ -279,6 +295,37 @@ def run_case(case):
         if multi and any(paths[t][x] >= 2 for x in populated):
             res.nontrivial = True
             res.stats['queries_with_multipath_match'] += 1
+    # ---- classes defined after the world was already queried
+    for li, bases in enumerate(case.get('late', [])):
+        try:
+            late = type(f'Late{li}', tuple(comp_classes[b] for b in bases),
+                        {})
+        except TypeError:
+            continue
+        obj = late()
+        obj.uid = ('late', li)
+        e = w.create_entity(obj)
+        comps.append((e, {('late', li): obj}))
+        res.stats['late_classes'] += 1
+        for t in range(n):
+            want = collections.Counter(
+                (x, c.uid) for x, row in comps for k, c in row.items()
+                if issubclass(type(c), comp_classes[t]))
+            got = collections.Counter(
+                (x, c.uid) for x, c in w.get(comp_classes[t]))
+            res.stats['queries_checked'] += 3
+            if got != want:
+                fail('get-late-subclass', f'get(D{t}) after a new subclass '
+                     'was defined and populated',
+                     sorted(map(str, want.elements())),
+                     sorted(map(str, got.elements())), t)
+                return _fin(res)
+            match = issubclass(late, comp_classes[t])
+            if w.has_component(e, comp_classes[t]) != match or (
+                    w.get_component(e, comp_classes[t]) is obj) != match:
+                fail('late-subclass-single', f'has/get_component(D{t}) for a '
+                     'component of a late subclass', match, not match, t)
+                return _fin(res)
     return _fin(res)
 
 
@@ -293,10 +340,10 @@ def shrink(case):
     # drop the last class
     if n > 1:
         k = n - 1
-        yield {'dag': dag[:k],
-               'entities': [[c for c in e if c < k] or [0]
-                            for e in case['entities']],
-               'procs': [c for c in case['procs'] if c < k] or [0]}
+        yield dict(case, dag=dag[:k],
+                   entities=[[c for c in e if c < k] or [0]
+                             for e in case['entities']],
+                   procs=[c for c in case['procs'] if c < k] or [0])
     for i in range(len(case['entities'])):
         if len(case['entities']) > 1:
             yield dict(case, entities=case['entities'][:i]
